@@ -37,7 +37,7 @@ PROPS['C01'] = Prop(
                       'ids, probes, invocation arguments, forEachIf stop index: symbolic 32-bit; full observation suite after every step'),
            Run('cl_inductive_n4', 'cl_inductive.cpp', {'NMAX': 4}, covers=5,
                bounds='INDUCTIVE STEP: from every state satisfying the representation invariant INV with n <= 4 nodes (unique shape; every node counter, the list counter and every id fully symbolic within INV; one stale and one empty handle) '
-                      'ONE arbitrary operation (append/prepend/insert-before/remove/removeListener) behaves per model and re-establishes INV; with the base case this extends the bounded-history verdict to histories of any length over lists of <= 4 callbacks, relative to INV')],
+                      'ONE arbitrary operation (append/prepend/insert-before/remove/removeListener) behaves per model and re-establishes INV, and a SECOND arbitrary operation (any handle incl. the one just handed out) again behaves per model (so that a representation the step broke shows in behaviour); INV itself is a harness-side requirement (its failure = INCONCLUSIVE, not a violation); with the base case this extends the bounded-history verdict to histories of any length over lists of <= 4 callbacks, relative to INV')],
     thorough=[Run('cl_inductive_n5', 'cl_inductive.cpp', {'NMAX': 5}, covers=5, bounds='inductive step from every INV-state with <= 5 nodes (see quick)'),
               Run('cl_history_k5', 'cl_history.cpp', {'KK': 5}, covers=8, budget_s=1700,
                   bounds='K=5 mutator steps, N<=5 callbacks; otherwise as quick')],
